@@ -12,7 +12,7 @@ from vpkit import common, zoo
 
 ID = "C29"
 N = {"quick": 170, "thorough": 4000}
-BUDGET = {"quick": 240.0, "thorough": 1500.0}
+BUDGET = {"quick": 240.0, "thorough": 700.0}
 RULE = ("case = (recombining simulation / inference with 0-4 deleted interior intervals so that nodes "
         "have up to 5 disjoint pieces; mutations above split roots, on isolated samples, and sites "
         "beyond the last edge; node metadata none / permissive JSON / struct / raw bytes); distinct by "
